@@ -90,6 +90,11 @@ pub enum Step {
 	ParkKey { cont: u8, route: u8 },
 	/// ask for the key `n` times in a row while it is alive
 	ProbeKeyMany { n: u32 },
+	/// build an OWNED lock or collection over fresh verification locks
+	/// (`shape`), optionally leak a guard of it with mem::forget and / or kill
+	/// its locks, then run a non-acquiring operation that needs ownership or
+	/// `&mut` (0 get_mut, 1 into_inner, 2 into_child, 3 `{:?}`)
+	OwnedTemp { shape: u8, leak: bool, kill: bool, op: u8 },
 	/// `lockable::RawLock::poison(&lock)` on stand-alone leaf `leaf` (a safe public
 	/// call): from now on blocking acquisitions of it panic and try_* fails
 	Kill { leaf: usize },
